@@ -35,7 +35,7 @@ extern int mpt_path_last(MPT_STRUCT(path) *path)
 		return len;
 	}
 	
-	data += (--pos - 1);
+	data += path->off + (--pos - 1);
 	len = 0;
 	
 	/* find last separator */
